@@ -197,7 +197,8 @@ Proof.
   split.
   - eexists. split; [|split].
     + exists 1%nat. econstructor; [|constructor].
-      apply St_write with (x := SErr) (d := 10) (rest := [CWrite SOut 2]) (k := 4); reflexivity.
+      apply St_write with (x := SErr) (d := 10) (rest := [CWrite SOut 2]) (k := 4);
+        try reflexivity; vm_compute; discriminate.
     + intro F. apply F. reflexivity.
     + reflexivity.
   - exists (expected_final (mkProg [CWrite SErr 10; CWrite SOut 2] (Exit 0))). split.
